@@ -240,7 +240,9 @@ class StandardVelocityInvertiblePotential(StandardVelocityPotential, InvertibleP
             If the velocity is not in the positive direction parallel to one of the cartesian axes.
         """
         direction_of_motion, speed = self._analyse_velocity(velocity)
-        return self.standard_velocity_displacement(direction_of_motion, *args, **kwargs) / speed
+        # The closed-form inversions can return a marginally negative displacement due to rounding (when the potential
+        # change is below the resolution of the current potential), which would place the event before the current time.
+        return max(self.standard_velocity_displacement(direction_of_motion, *args, **kwargs), 0.0) / speed
 
     @abstractmethod
     def standard_velocity_displacement(self, direction: int, separations, charges=None,
